@@ -169,6 +169,27 @@ def run(chk):
                                         ok = True
                         if not ok and ns not in ("function", "group", "user"):
                             chk.add(Finding("R08-move", "R08-move::action::%s::%s" % (mir.strip_generics(fid), dp), "elements are moved into %s (namespace %s) under the action table of %s: duplicates or losses in that namespace" % (dp, ns, sorted(set(str(t) for t in tabs)) or "no table"), b.where(ev[4])))
+    # ------------------------------------------------------------------ R08-union
+    # same-name GROUP / FUNCTION: for every optional reference list that is united when both sides have it, B's list is taken
+    # over when only B has it (the two arms of one `match (a, b)`): otherwise B's members are lost whenever A has none
+    nun = 0
+    unions, fills = {}, set()
+    for ev in mf.S.events:
+        if ev[0] == "call" and ev[1].endswith("Vec::push") and ev[2]:
+            for t in ev[2][0]:
+                r, pth = refs.term_path(t)
+                if r == ("param", 1) and pth and re.search(r"\.(identifier_list|name_list)$", pth):
+                    unions[pth.rsplit("/", 1)[0]] = ev
+        if ev[0] == "write":
+            r, pth = refs.term_path(ev[1])
+            if r == ("param", 1) and pth and any(refs.term_path(v)[0] == ("param", 2) for v in ev[2]):
+                fills.add(pth)
+    for parent, ev in sorted(unions.items()):
+        nun += 1
+        if parent not in fills:
+            fn = prog.bodies.get(ev[3])
+            chk.add(Finding("R08-union", "R08-union::" + parent, "%s is united with the merged-in element's list when both have one, but never taken over when only the merged-in element has it: B's members are lost" % parent, fn.where(ev[4]) if fn else ""))
+    chk.rule("R08-union", "optional reference lists of same-name GROUPs/FUNCTIONs: united when both exist and taken over when only B has one", nun, floor=8)
     chk.rule("R08-reset", "elements moved from the merged-in module whose location info is reset before they are stored", nreset, floor=20)
     chk.rule("R08-move", "transfers of elements from the merged-in module: same list, decided by that namespace's action table", nmove, floor=20)
     chk.rule("R08-frame-fill", "assignments of whole fields from the merged-in module guarded by a test that the destination has none", nfill, floor=8)
